@@ -325,6 +325,22 @@ func run(t *testing.T, cf cfg, hist []string, onLeak func(string)) *failure {
 func (x *world) final() {
 	w := x.w
 	x.hist = append(x.hist, "[final]")
+	// An open connection (the last Open succeeded, no Close since, no lifecycle call in flight) that
+	// is not connected must still be working on it: a redundant Open that failed with ErrAlreadyOpen,
+	// an update or a send has "no side effects" only if the reconnect machinery survived it.
+	if x.open && x.fail == nil && x.pending("close") == 0 && x.pending("openBG") == 0 && x.pending("openWait") == 0 &&
+		w.C.State() == hsms.NotConnectedState {
+		x.plan = sim.Accept
+		dials, alive := w.Net.DialCount(), false
+		for i := 0; i < 60 && !alive; i++ { // connect timeout + T5 + backoff, generously: 6 s
+			w.Advance(100 * time.Millisecond)
+			alive = w.C.State() != hsms.NotConnectedState || w.Net.DialCount() != dials || (!x.cfg.Active && w.Net.LiveListener() != nil)
+		}
+		if !alive {
+			x.bad("open-connection-gave-up", "the connection is open (Open succeeded, no Close since) and NotConnected, but for 6 s it neither dialed nor listened: the reconnect machinery is dead")
+			return
+		}
+	}
 	c1 := x.start("close", closeTimeout+connTimeout, func() error { return w.C.Close() })
 	w.Advance(closeTimeout + connTimeout + slack)
 	x.reap()
